@@ -60,12 +60,57 @@ Definition bump (u : Z) (s : st) : st := s <| refc ::= alter S (absn u) |>.
 (** parts of the state that node creation does not touch *)
 Definition frame (s s' : st) : Prop :=
   last_len s' = last_len s ∧ rctx s' = rctx s ∧
-  roots s' = roots s ∧ tape s' = tape s.
+  roots s' = roots s ∧ tape s' = tape s ∧ max_nodes s' = max_nodes s.
 
 Global Instance frame_refl : Reflexive frame.
 Proof. intros s. by repeat split. Qed.
 Global Instance frame_trans : Transitive frame.
-Proof. intros s1 s2 s3 (?&?&?&?) (?&?&?&?). split_and!; congruence. Qed.
+Proof. intros s1 s2 s3 (?&?&?&?&?) (?&?&?&?&?). split_and!; congruence. Qed.
+Lemma frame_max_nodes s s' : frame s s' → max_nodes s' = max_nodes s.
+Proof. by intros (_&_&_&_&?). Qed.
+
+(** ** The two exceptions that a node-creating operation can raise on valid
+    arguments: the reordering request (only while requests are enabled) and
+    the full table (only when [max_nodes] is bounded) *)
+Definition benign (s : st) (e : err) : Prop :=
+  (e = ENeedsReordering ∧ is_Some (last_len s)) ∨
+  (e = ERuntime ∧ is_Some (max_nodes s)).
+
+Lemma benign_frame s s' e : frame s s' → benign s' e → benign s e.
+Proof.
+  intros (E1&_&_&_&E2) [[-> H]|[-> H]]; [left|right]; (split; [done|]); congruence.
+Qed.
+Lemma benign_unbounded s e : max_nodes s = None → benign s e →
+  e = ENeedsReordering ∧ is_Some (last_len s).
+Proof. intros E [?|[_ [n Hn]]]; [done|congruence]. Qed.
+Lemma benign_off s e : last_len s = None → benign s e →
+  e = ERuntime ∧ is_Some (max_nodes s).
+Proof. intros E [[_ [n Hn]]|?]; [congruence|done]. Qed.
+Lemma benign_never s e : last_len s = None → max_nodes s = None → ¬ benign s e.
+Proof. intros E1 E2 [[_ [n Hn]]|[_ [n Hn]]]; congruence. Qed.
+Lemma benign_rctx s b e : benign (s <| rctx := b |>) e ↔ benign s e.
+Proof. done. Qed.
+
+(** [_next_free_int] finds room below [max_nodes] as long as two numbers are
+    unused: with [min_free] the least unused number, all of [1 .. n-1] except
+    [min_free] would otherwise be nodes *)
+Lemma find_or_add_room (m : gmap positive triple) (u : positive) t (n : positive) :
+  m !! u = None → (∀ k, (k < u)%positive → is_Some (m !! k)) →
+  size m + 2 < Pos.to_nat n →
+  (next_free (S (size (<[u := t]> m))) (<[u := t]> m) u < n)%positive.
+Proof.
+  intros Hu Hbelow Hsz.
+  destruct (next_free_fresh (<[u := t]> m) u) as (H1&H2&H3).
+  set (f := next_free (S (size (<[u := t]> m))) (<[u := t]> m) u) in *.
+  destruct (decide (f < n)%positive) as [|Hge]; [done|]. exfalso.
+  assert (Hall : ∀ k, (1 <= k)%positive → Pos.to_nat k < Pos.to_nat 1 + (Pos.to_nat n - 1) →
+            is_Some (<[u := t]> m !! k)).
+  { intros k _ Hk. destruct (decide (k = u)) as [->|Hne]; [by rewrite lookup_insert|].
+    destruct (decide (k < u)%positive).
+    - rewrite lookup_insert_ne by done. by apply Hbelow.
+    - apply H3; lia. }
+  apply consecutive_size in Hall. rewrite map_size_insert_None in Hall by done. lia.
+Qed.
 
 Lemma Inv_trig s o : Inv s → Inv (s <| trig := o |>).
 Proof. apply Inv_same. by repeat split. Qed.
@@ -155,7 +200,7 @@ Theorem find_or_add_spec s i v w r s' :
   match r with
   | Ok u => valid s' u ∧ i ≤ lvl_of s' u ∧
             ∀ a, D s' u a = if a i then D s w a else D s v a
-  | Err e => e = ENeedsReordering ∧ is_Some (last_len s) ∧ succ s' = succ s
+  | Err e => benign s e ∧ succ s' = succ s
   end.
 Proof.
   intros HI Hv Hw Hlv Hlw. unfold find_or_add. unfold bind at 1.
@@ -165,7 +210,8 @@ Proof.
       pose proof Hsame as (E1&E2&E3&E4&E5&E6&E7).
       split_and!; try done.
       - by eapply Inv_same.
-      - split_and!; by rewrite ?E1, ?E6, ?E7. }
+      - split_and!; by rewrite ?E1, ?E6, ?E7.
+      - by left. }
   assert (HI1 : Inv s1) by (by eapply Inv_same).
   assert (Hext1 : extends s s1).
   { destruct Hsame as (E1&?&?&?&?&E6&E7). split_and!; by rewrite ?E1, ?E6, ?E7. }
@@ -180,17 +226,20 @@ Proof.
       match r with
       | Ok u => valid s' u ∧ i ≤ lvl_of s' u ∧
                 ∀ a, D s' u a = if a i then D s1 w a else D s1 v a
-      | Err e => False
+      | Err e => e = ERuntime ∧ is_Some (max_nodes s1) ∧ s' = s1
       end) →
      Inv s' ∧ extends s s' ∧ frame s s' ∧
      match r with
      | Ok u => valid s' u ∧ i ≤ lvl_of s' u ∧
                ∀ a, D s' u a = if a i then D s w a else D s v a
-     | Err e => e = ENeedsReordering ∧ is_Some (last_len s) ∧ succ s' = succ s
+     | Err e => benign s e ∧ succ s' = succ s
      end).
   { intros r0 s0 (?&?&?&Hm). split_and!; [done|by etrans|by etrans|].
-    destruct r0; [|done]. destruct Hm as (?&?&HD). split_and!; try done.
-    intros b. rewrite HD. by rewrite !HD1. }
+    destruct r0.
+    - destruct Hm as (?&?&HD). split_and!; try done.
+      intros b. rewrite HD. by rewrite !HD1.
+    - destruct Hm as (->&Hmx&->). split; [|apply Hsame].
+      right. split; [done|]. by rewrite <- (frame_max_nodes _ _ Hfr). }
   intros Hrun. apply Hgoal. clear Hgoal HD1 Hext1 Hfr Hsame Hv Hw HI.
   revert Hrun. cbn [bind get].
   assert (Hi : i < nvars s1) by (pose proof (lvl_le s1 HI1 v Hv1); lia).
@@ -249,6 +298,10 @@ Proof.
     rewrite E, (inv_term _ HI1) in Hf. done. }
   destruct (inv_free _ HI1) as [Hf _]. fold u in Hf.
   unfold assert. rewrite !bool_decide_eq_true_2 by done. cbn [bind ret modify].
+  destruct (fits (max_nodes s1) _) eqn:Hfit; cbn [ensure bind ret raise]; cycle 1.
+  { intros [= <- <-]. split; [done|split; [reflexivity|split; [reflexivity|]]].
+    split; [done|split; [|done]]. unfold fits in Hfit. by destruct (max_nodes s1). }
+  cbn [bind modify].
   change (s1 <| pred ::= <[Triple i v' w' := u]> |> <| succ := <[u := Triple i v' w']> (succ s1) |>
              <| refc ::= <[u := 0]> |>
              <| min_free := next_free (S (size (<[u := Triple i v' w']> (succ s1))))
